@@ -44,7 +44,7 @@ def run_seed(m, patch, tier="quick"):
         p = subprocess.run(["patch", "-p1", "--no-backup-if-mismatch", "-s", "-i", str(patch)], cwd=tmp, capture_output=True, text=True)
         if p.returncode != 0:
             return dict(seed=m["id"], property=pid, status="not-applicable", detail="patch no longer applies to the current tree: " + (p.stdout + p.stderr)[-200:])
-        env = dict(os.environ, PYVC_REPO=str(tmp), PYVC_OUT=str(tmp / "out"), VERIF_TIER="quick", PYVC_TIMEOUT_S="8")
+        env = dict(os.environ, PYVC_REPO=str(tmp), PYVC_OUT=str(tmp / "out"), VERIF_TIER="quick", PYVC_TIMEOUT_S="8", PYVC_UNIT_LIMIT_S=os.environ.get("PYVC_SELFTEST_UNIT_LIMIT_S", "400"))
         r = subprocess.run([sys.executable, "-m", "pyvc.check", pid, "--tier", "quick", "--no-selftest"], cwd=VERIF, env=env, capture_output=True, text=True, timeout=3000)
         viol = [ln for ln in r.stdout.splitlines() if ln.startswith("VIOLATION")]
         if m.get("expect") == "clean":
